@@ -23,9 +23,16 @@ RULE = ('layouts = (piece length, file sizes in metainfo order): exhaustive smal
         'histories = layout + a sequence of operations in one process (generate()/verify()/reuse() on two Torrent '
         'objects over the same paths, other TorrentFileStream objects opened / read (get_piece, verify_piece, partial '
         'and full iteration) / closed, listed files replaced atomically or rewritten in place with content of the '
-        'same size, with and without the old mtime); every generate() of the history is judged against the bytes the '
-        'files hold at that moment; non-trivial = a file is replaced or rewritten before a generate() while another '
-        'stream is open or after an earlier run; distinct = distinct (layout, operations).  '
+        'same size, with and without the old mtime; edits of the metainfo mapping between runs on one object: info["files"] '
+        're-ordered in place (sort, reverse, swap, slice assignment, delete+append/insert), an entry replaced by an equal '
+        'one, an entry\'s length or path edited in place with and without the disk following, the list replaced by a copy / '
+        'a re-ordered list, name and piece length changed in the mapping and through the attributes, getters read in '
+        'between (files, filepaths, size, pieces, filetree, ...), the files / filepaths setters, copy() and continuing on '
+        'both objects); every generate() of the history is judged against the raw metainfo of that object and the bytes '
+        'on disk at that moment (success with exactly those digests when they agree, failure that stores nothing when '
+        'they do not); non-trivial = a file changes before a generate() while another stream is open or after an earlier '
+        'run, or an object\'s metainfo is edited between a look at it (getter / run) and a generate() on it; distinct = '
+        'distinct (layout, operations).  '
         'schedules = generate() under the deterministic scheduler (strategies uniform / PCT / stall / '
         'timeouts-first, 1..4 hashers) x hasher faults (the n-th sha1() call of hasher k raises); non-trivial = a fault '
         'fired or >= 2 hashers; distinct = distinct (layout, strategy+seed, fault plan)')
@@ -244,162 +251,341 @@ def evaluate(ctx, drv, cases):
 
 
 # ====================================================================================== histories
-# generate() inside a history of the process (model: lean/Torf/Model/GenHistory.lean,
-# theorem C01_generate_history): only the bytes the listed files hold when generate() runs matter.
+# generate() inside a history of the process (model: lean/Torf/Model/GenHistory.lean; theorems
+# C01_generate_history, C01_generate_reads_current_metainfo): only the metainfo of the object as it is when
+# generate() runs and the bytes the listed files hold at that moment matter.
 
 MAX_OPEN = 10       # TorrentFileStream.max_open_files (the model's `cap`)
 VER_BASE = 1 << 20
+GHOST = 1000000     # ids of paths the metainfo names but that were never created
+MAX_TORRENTS = 4
+META_KINDS = ('m_sort', 'm_reverse', 'm_swap', 'm_slice', 'm_delapp', 'm_delins', 'm_len', 'm_path', 'm_entry',
+              'm_newlist', 'm_name', 'm_L', 'm_setfiles', 'm_setfilepaths', 'copy')
 
 
 def _ver_bytes(cseed, ver, j, size):
-    """content version `ver` of file j (version 0 is what content.make_tree writes)"""
+    """content version `ver` of path j (version 0 is what content.make_tree writes)"""
     return content.file_bytes(cseed + 104729 * ver, j, size)
 
 
-def _file_path(top, c, j):
-    return top if c.get('single') else os.path.join(top, *c['paths'][j])
-
-
-def _run_history(torf, _stream, wd, c):
-    L, sizes = c['L'], c['sizes']
-    files = [{'path': p, 'size': sz} for p, sz in zip(c['paths'], sizes)]
-    single = c.get('single', False)
-    top = os.path.join(wd, 'T')
-    content.make_tree(wd, 'T', files, seed=c['cseed'], single=single)
-    torrents = [content.make_torrent(torf, wd, 'T', files, L, single=single, via_setter=c.get('via_setter', False))
-                for _ in range(2)]
-    if L % 16384:
-        for t in torrents:
-            t.validate = lambda: None        # small piece lengths: only verify()'s validate() gate is bypassed
-    tdir = os.path.join(wd, 'torrents')
-    vers = [0] * len(sizes)
-    streams = {}
-    gens, noise = [], 0
-    try:
-        for op in c['ops']:
-            kind = op[0]
-            try:
-                if kind == 'gen':
-                    t = torrents[op[1]]
-                    rec = {'vers': list(vers)}
-                    try:
-                        rec['ret'] = t.generate(threads=op[2])
-                        rec['pieces'] = t.metainfo['info'].get('pieces')
-                        rec['hashes'] = list(t.hashes) if rec['pieces'] is not None else None
-                        rec['npieces'] = t.pieces
-                    except BaseException as e:   # noqa
-                        rec['exc'] = f'{type(e).__name__}: {e}'
-                    gens.append(rec)
-                elif kind == 'verify':
-                    t = torrents[op[1]]
-                    if t.metainfo['info'].get('pieces'):
-                        t.verify(top, threads=op[2], callback=lambda *a: None)
-                elif kind == 'reuse':
-                    t, o = torrents[op[1]], torrents[1 - op[1]]
-                    if o.metainfo['info'].get('pieces'):
-                        os.makedirs(tdir, exist_ok=True)
-                        o.write(os.path.join(tdir, 'other.torrent'), overwrite=True)
-                        t.reuse(tdir)
-                elif kind == 'snew':
-                    streams[op[1]] = _stream.TorrentFileStream(torrents[op[2]])
-                elif kind == 'sget':
-                    streams[op[1]].get_piece(op[2])
-                elif kind == 'shash':
-                    streams[op[1]].get_piece_hash(op[2])
-                elif kind == 'sverify':
-                    streams[op[1]].verify_piece(op[2])
-                elif kind == 'siter':
-                    it = streams[op[1]].iter_pieces()
-                    n = op[2]
-                    k = 0
-                    for _ in it:
-                        k += 1
-                        if n is not None and k >= n:
-                            break
-                    it.close()
-                elif kind == 'sclose':
-                    streams[op[1]].close()
-                elif kind in ('replace', 'rewrite'):
-                    j, ver = op[1], op[2]
-                    fp = _file_path(top, c, j)
-                    data = _ver_bytes(c['cseed'], ver, j, sizes[j])
-                    st = os.stat(fp)
-                    if kind == 'replace':
-                        with open(fp + '.tmp~', 'wb') as f:
-                            f.write(data)
-                        os.replace(fp + '.tmp~', fp)
-                    else:
-                        with open(fp, op[3]) as f:
-                            f.write(data)
-                    if op[4]:
-                        os.utime(fp, ns=(st.st_atime_ns, st.st_mtime_ns))
-                    vers[j] = ver
-                else:
-                    raise RuntimeError(f'bad history op {op!r}')
-            except RuntimeError:
-                raise
-            except Exception:   # noqa   what the other operations answer is not C01's business
-                noise += 1
-    finally:
-        for st_ in streams.values():
-            try:
-                st_.close()
-            except Exception:   # noqa
-                pass
-    return {'gens': gens, 'noise': noise}
-
-
-def _touched_by_piece(L, sizes, i):
-    lo, hi = i * L, min((i + 1) * L, sum(sizes))
+def _touched(L, ents_sizes, i):
+    """positions (in the listed order) of the files that overlap piece i"""
+    total = sum(ents_sizes)
+    lo, hi = i * L, min((i + 1) * L, total)
     out, pos = [], 0
-    for j, sz in enumerate(sizes):
+    for j, sz in enumerate(ents_sizes):
         if sz and pos < hi and pos + sz > lo:
             out.append(j)
         pos += sz
     return out
 
 
-def _model_ops(c):
-    """the history as the model sees it (which files an operation of another stream opens is an input)"""
+def _run_history(torf, _stream, wd, c):
+    import copy as _copy
+    import pathlib
+    import random as _random
     L, sizes = c['L'], c['sizes']
-    out = []
-    for op in c['ops']:
-        k = op[0]
-        if k == 'gen':
-            out.append(['gen'])
-        elif k == 'snew':
-            out.append(['new'])
-        elif k in ('sget', 'shash', 'sverify'):
-            out += [['touch', op[1], j] for j in _touched_by_piece(L, sizes, op[2])]
-        elif k == 'siter':
-            n = op[2]
-            last = len(sizes) - 1
-            if n is not None:
-                t = _touched_by_piece(L, sizes, max(0, n - 1))
-                last = t[-1] if t else last
-            out += [['touch', op[1], j] for j in range(last + 1)]
-        elif k == 'sclose':
-            out.append(['close', op[1]])
-        elif k in ('replace', 'rewrite'):
-            out.append([k, op[1], op[2]])
-    return out
+    files = [{'path': p, 'size': sz} for p, sz in zip(c['paths'], sizes)]
+    single = c.get('single', False)
+    top = os.path.join(wd, 'T')
+    content.make_tree(wd, 'T', files, seed=c['cseed'], single=single)
+
+    def attach(t):
+        t._path = pathlib.Path(top)      # as content.make_torrent does: content path without re-scanning
+        t.validate = lambda: None        # only verify()'s validate() gate (small / edited piece lengths)
+        return t
+
+    torrents = [attach(content.make_torrent(torf, wd, 'T', files, L, single=single,
+                                            via_setter=c.get('via_setter', False))) for _ in range(2)]
+    tdir = os.path.join(wd, 'torrents')
+    init_keys = [() if single else tuple(p) for p in c['paths']]
+    disk = {k: {'id': j, 'ver': 0, 'size': sizes[j]} for j, k in enumerate(init_keys)}
+    blobs = {(j, 0): sizes[j] for j in range(len(sizes))}
+    ghosts, lids, names, keep = {}, {}, {}, []
+    fresh = {'ver': 1000, 'id': len(sizes)}
+
+    def pid(key):
+        if key in disk:
+            return disk[key]['id']
+        return ghosts.setdefault(key, GHOST + len(ghosts))
+
+    def fpath(key):
+        return top if (single or key == ()) else os.path.join(top, *key)
+
+    def snap(t):
+        info = t.metainfo['info']
+        fl = info.get('files')
+        if isinstance(fl, list):
+            keep.append(fl)          # keep every list object alive: id() must stay unique
+            ents = [(tuple(str(x) for x in fi['path']), fi['length']) for fi in fl]
+            lid = lids.setdefault(id(fl), len(lids) + 1)
+        elif 'length' in info:
+            ents, lid = [((), info['length'])], 0
+        else:
+            ents, lid = [], 0
+        return {'L': info.get('piece length', 0), 'ents': ents,
+                'name': names.setdefault(str(info.get('name')), len(names)), 'lid': lid}
+
+    def meta_json(sn):
+        # no content at all (`_set_files` removed 'files' and 'piece length'): the run fails whatever the piece length
+        return {'L': sn['L'] if (sn['ents'] or sn['L'] > 0) else 1, 'files': [[pid(k), ln] for k, ln in sn['ents']],
+                'name': sn['name'], 'listId': sn['lid']}
+
+    def write_file(key, ver, size, how):
+        """new content version of an existing path; how = 'replace' | 'r+b' | 'wb'"""
+        d = disk[key]
+        fp = fpath(key)
+        data = _ver_bytes(c['cseed'], ver, d['id'], size)
+        if how == 'replace':
+            with open(fp + '.tmp~', 'wb') as f:
+                f.write(data)
+            os.replace(fp + '.tmp~', fp)
+        else:
+            with open(fp, how) as f:
+                f.write(data)
+                f.truncate(size)
+        d['ver'], d['size'] = ver, size
+        blobs[(d['id'], ver)] = size
+        mops.append(['replace' if how == 'replace' else 'rewrite', d['id'], ver, size])
+
+    last = [snap(t) for t in torrents]
+    metas0 = [meta_json(sn) for sn in last]
+    mops, gens, noise = [], [], 0
+    streams = {}
+
+    def flist(t):
+        fl = t.metainfo['info'].get('files')
+        return fl if isinstance(fl, list) and fl else None
+
+    try:
+        for op in c['ops']:
+            kind = op[0]
+            try:
+                if kind == 'gen':
+                    k = op[1] % len(torrents)
+                    t = torrents[k]
+                    sn = snap(t)
+                    rec = {'k': k, 'sn': sn, 'before': t.metainfo['info'].get('pieces'),
+                           'disk': {key: dict(disk[key]) for key, _ in sn['ents'] if key in disk}}
+                    mops.append(['gen', k])
+                    try:
+                        rec['ret'] = t.generate(threads=op[2])
+                    except BaseException as e:   # noqa
+                        rec['exc'] = f'{type(e).__name__}: {e}'[:200]
+                    rec['pieces'] = t.metainfo['info'].get('pieces')
+                    rec['hashes'] = list(t.hashes)
+                    rec['npieces'] = t.pieces
+                    gens.append(rec)
+                elif kind == 'verify':
+                    t = torrents[op[1] % len(torrents)]
+                    if t.metainfo['info'].get('pieces'):
+                        t.verify(top, threads=op[2], callback=lambda *a: None)
+                elif kind == 'reuse':
+                    k = op[1] % len(torrents)
+                    t, o = torrents[k], torrents[(k + 1) % len(torrents)]
+                    if o.metainfo['info'].get('pieces'):
+                        os.makedirs(tdir, exist_ok=True)
+                        o.write(os.path.join(tdir, 'other.torrent'), overwrite=True)
+                        t.reuse(tdir)
+                elif kind == 'snew':
+                    k = op[2] % len(torrents)
+                    streams[op[1]] = (_stream.TorrentFileStream(torrents[k]), k)
+                    mops.append(['new'])
+                elif kind in ('sget', 'shash', 'sverify', 'siter'):
+                    st, k = streams[op[1]]
+                    sn = snap(torrents[k])
+                    szs = [ln for _, ln in sn['ents']]
+                    if kind == 'siter':
+                        n = op[2]
+                        lastpos = len(szs) - 1
+                        if n is not None and sn['L'] > 0:
+                            tt = _touched(sn['L'], szs, max(0, n - 1))
+                            lastpos = tt[-1] if tt else lastpos
+                        pos = list(range(lastpos + 1))
+                    else:
+                        pos = _touched(sn['L'], szs, op[2]) if sn['L'] > 0 else []
+                    mops.extend(['touch', op[1], pid(sn['ents'][j][0])] for j in pos if sn['ents'][j][0] in disk)
+                    if kind == 'sget':
+                        st.get_piece(op[2])
+                    elif kind == 'shash':
+                        st.get_piece_hash(op[2])
+                    elif kind == 'sverify':
+                        st.verify_piece(op[2])
+                    else:
+                        it = st.iter_pieces()
+                        n, cnt = op[2], 0
+                        for _ in it:
+                            cnt += 1
+                            if n is not None and cnt >= n:
+                                break
+                        it.close()
+                elif kind == 'sclose':
+                    mops.append(['close', op[1]])
+                    streams[op[1]][0].close()
+                elif kind in ('replace', 'rewrite'):
+                    key = init_keys[op[1]]
+                    st_ = os.stat(fpath(key))
+                    write_file(key, op[2], disk[key]['size'], 'replace' if kind == 'replace' else op[3])
+                    if op[4]:
+                        os.utime(fpath(key), ns=(st_.st_atime_ns, st_.st_mtime_ns))
+                # ------------------------------------------------ the metainfo side
+                elif kind in META_KINDS or kind == 'm_get':
+                    k = op[1] % len(torrents)
+                    t = torrents[k]
+                    info = t.metainfo['info']
+                    fl = flist(t)
+                    n = len(fl) if fl else 0
+                    if kind == 'm_get':
+                        mops.append(['get', k])
+                        w = op[2]
+                        if w == 'files-iter':
+                            list(t.files)
+                        elif w == 'filepaths-iter':
+                            list(t.filepaths)
+                        else:
+                            getattr(t, w)
+                    elif kind == 'm_sort' and fl:
+                        keyf = {'path': lambda fi: fi['path'], 'revpath': lambda fi: fi['path'][::-1],
+                                'size': lambda fi: (fi['length'], fi['path'])}[op[2]]
+                        fl.sort(key=keyf, reverse=bool(op[3]))
+                    elif kind == 'm_reverse' and fl:
+                        fl.reverse()
+                    elif kind == 'm_swap' and n >= 2:
+                        i, j = op[2] % n, op[3] % n
+                        fl[i], fl[j] = fl[j], fl[i]
+                    elif kind == 'm_slice' and fl:
+                        perm = list(fl)
+                        _random.Random(op[2]).shuffle(perm)
+                        fl[:] = perm
+                    elif kind == 'm_delapp' and fl:
+                        fl.append(fl.pop(op[2] % n))
+                    elif kind == 'm_delins' and fl:
+                        e = fl[op[2] % n]
+                        del fl[op[2] % n]
+                        fl.insert(op[3] % n, e)
+                    elif kind == 'm_entry' and fl:
+                        i = op[2] % n
+                        fl[i] = {'length': fl[i]['length'], 'path': list(fl[i]['path'])}
+                    elif kind == 'm_newlist' and fl:
+                        if op[2] == 'copy':
+                            info['files'] = list(fl)
+                        elif op[2] == 'deepcopy':
+                            info['files'] = _copy.deepcopy(fl)
+                        else:
+                            perm = list(fl)
+                            _random.Random(op[3]).shuffle(perm)
+                            info['files'] = perm
+                    elif kind == 'm_len':
+                        if fl:
+                            fi = fl[op[2] % n]
+                            key, holder, field = tuple(str(x) for x in fi['path']), fi, 'length'
+                        elif 'length' in info:
+                            key, holder, field = (), info, 'length'
+                        else:
+                            continue
+                        new = max(1, holder[field] + op[3])
+                        if new == holder[field]:
+                            new += 1
+                        holder[field] = new
+                        if op[4] and key in disk:
+                            fresh['ver'] += 1
+                            write_file(key, fresh['ver'], new, op[5])
+                    elif kind == 'm_path' and fl:
+                        fi = fl[op[2] % n]
+                        newpath = [str(x) for x in fi['path'][:-1]] + [op[3]]
+                        if op[4] == 'inplace':
+                            fi['path'][-1] = op[3]
+                        else:
+                            fi['path'] = newpath
+                        key = tuple(newpath)
+                        if op[5] and key not in disk and isinstance(fi['length'], int) and fi['length'] >= 0:
+                            fresh['ver'] += 1
+                            d = disk[key] = {'id': fresh['id'], 'ver': fresh['ver'], 'size': fi['length']}
+                            fresh['id'] += 1
+                            with open(fpath(key), 'wb') as f:
+                                f.write(_ver_bytes(c['cseed'], d['ver'], d['id'], d['size']))
+                            blobs[(d['id'], d['ver'])] = d['size']
+                            mops.append(['create', d['id'], d['ver'], d['size']])
+                    elif kind == 'm_name':
+                        if op[2] == 'dict':
+                            info['name'] = op[3]
+                        else:
+                            t.name = op[3]
+                    elif kind == 'm_L':
+                        if op[2] == 'dict':
+                            info['piece length'] = op[3]
+                        else:
+                            t.piece_size = op[3]
+                    elif kind == 'm_setfiles':
+                        try:
+                            how = op[2]
+                            if how == 'remove':
+                                fs = t.files
+                                if len(fs) > 1:
+                                    fs.remove(fs[op[3] % len(fs)])
+                            else:
+                                fs = list(t.files)
+                                if how == 'reversed':
+                                    fs.reverse()
+                                elif how == 'drop' and len(fs) > 1:
+                                    del fs[op[3] % len(fs)]
+                                t.files = fs
+                        finally:
+                            attach(t)        # the setter forgets a content path that is not relative to the cwd
+                    elif kind == 'm_setfilepaths' and fl:
+                        try:
+                            fps = [fpath(key) for key, _ in snap(t)['ents'] if key in disk]
+                            if op[2] == 'drop' and len(fps) > 2:
+                                del fps[op[3] % len(fps)]
+                            if len(fps) >= 2 and os.path.commonpath(fps) == top:
+                                t.filepaths = fps
+                        finally:
+                            attach(t)
+                    elif kind == 'copy' and len(torrents) < MAX_TORRENTS:
+                        torrents.append(attach(t.copy()))
+                else:
+                    raise RuntimeError(f'bad history op {op!r}')
+            except RuntimeError as e:
+                if 'bad history op' in str(e):
+                    raise
+                noise += 1
+            except Exception:   # noqa   what the other operations answer is not C01's business
+                noise += 1
+            # what the metainfo of every object reads now (raw mapping, no getter involved)
+            for k, t in enumerate(torrents):
+                sn = snap(t)
+                if k >= len(last):
+                    last.append(sn)
+                    mops.append(['newtor', meta_json(sn)])
+                elif sn != last[k]:
+                    last[k] = sn
+                    mops.append(['meta', k, meta_json(sn)])
+    finally:
+        for st_, _ in streams.values():
+            try:
+                st_.close()
+            except Exception:   # noqa
+                pass
+    return {'gens': gens, 'noise': noise, 'metas0': metas0, 'mops': mops, 'blobs': sorted(blobs.items())}
 
 
-def _mk_history(rng, L, sizes, single=False, via_setter=False, nested=True):
+def _mk_history(rng, L, sizes, single=False, via_setter=False, nested=True, meta=False):
     n = len(sizes)
     total = sum(sizes)
     npieces = max(1, (total + L - 1) // L)
     nonempty = [j for j, sz in enumerate(sizes) if sz] or [0]
-    ops, open_streams, nstreams, ver = [], [], 0, 0
-    has_pieces = [False, False]
+    ops, open_streams = [], []
+    st = {'nstreams': 0, 'ver': 0, 'ntor': 2, 'nm': 0}
+
+    def tor():
+        return rng.randrange(st['ntor'])
 
     def mutate():
-        nonlocal ver
-        ver += 1
+        st['ver'] += 1
         j = rng.choice(nonempty)
         if rng.random() < 0.6:
-            return ['replace', j, ver, None, rng.random() < 0.3]
-        return ['rewrite', j, ver, rng.choice(['r+b', 'wb']), rng.random() < 0.3]
+            return ['replace', j, st['ver'], None, rng.random() < 0.3]
+        return ['rewrite', j, st['ver'], rng.choice(['r+b', 'wb']), rng.random() < 0.3]
 
     def read_op(s, j=None):
         if j is None:
@@ -413,19 +599,102 @@ def _mk_history(rng, L, sizes, single=False, via_setter=False, nested=True):
         return [k, s, i]
 
     def new_stream():
-        nonlocal nstreams
-        s = nstreams
-        nstreams += 1
+        s = st['nstreams']
+        st['nstreams'] += 1
         open_streams.append(s)
-        return ['snew', s, rng.randrange(2)]
+        return ['snew', s, tor()]
 
-    def gen():
-        k = rng.randrange(2)
-        has_pieces[k] = True
-        return ['gen', k, rng.randint(1, 4)]
+    def gen(k=None):
+        return ['gen', tor() if k is None else k, rng.randint(1, 4)]
 
-    if rng.random() < 0.45:
-        # the pattern that matters most: something holds handles, a file changes, generate() runs
+    def getter(k):
+        return ['m_get', k, rng.choice(['files', 'files', 'files-iter', 'filepaths', 'filepaths-iter', 'size', 'pieces',
+                                        'filetree', 'mode', 'name', 'piece_size', 'hashes'])]
+
+    def new_L():
+        if via_setter or rng.random() < 0.15:
+            return ['dict' if rng.random() < 0.5 else 'attr', 16384 * rng.choice([1, 1, 2, 3, 4])]
+        return ['dict', rng.choice([1, 2, 3, 4, 5, 8, 16, 64])]
+
+    def edit(k):
+        """an edit of the raw metainfo mapping"""
+        st['nm'] += 1
+        w = rng.random()
+        a, b = rng.randrange(64), rng.randrange(64)
+        if single or w < 0.07:
+            return rng.choice([['m_len', k, a, rng.choice([-1, 1, 2, L]), rng.random() < 0.65,
+                                rng.choice(['replace', 'r+b', 'wb'])],
+                               ['m_name', k, rng.choice(['dict', 'attr']), f'N{st["nm"]}'],
+                               ['m_L', k] + new_L()])
+        if w < 0.17:
+            return ['m_sort', k, rng.choice(['path', 'revpath', 'size']), rng.random() < 0.5]
+        if w < 0.27:
+            return ['m_reverse', k]
+        if w < 0.39:
+            return ['m_swap', k, a, a + 1 + rng.randrange(3)]
+        if w < 0.45:
+            return ['m_slice', k, rng.randrange(1 << 20)]
+        if w < 0.51:
+            return ['m_delapp', k, a]
+        if w < 0.56:
+            return ['m_delins', k, a, b]
+        if w < 0.70:
+            return ['m_len', k, a, rng.choice([-1, 1, 1, 2, L, -L]), rng.random() < 0.65,
+                    rng.choice(['replace', 'r+b', 'wb'])]
+        if w < 0.80:
+            sync = rng.random() < 0.65
+            return ['m_path', k, a, (f'r{st["nm"]}' if sync else f'ghost{st["nm"]}'),
+                    rng.choice(['inplace', 'assign']), sync]
+        if w < 0.84:
+            return ['m_entry', k, a]
+        if w < 0.90:
+            return ['m_L', k] + new_L()
+        if w < 0.94:
+            return ['m_name', k, rng.choice(['dict', 'attr']), f'N{st["nm"]}']
+        return ['m_newlist', k, rng.choice(['copy', 'deepcopy', 'shuffled']), rng.randrange(1 << 20)]
+
+    def setter(k):
+        if rng.random() < 0.6:
+            return ['m_setfiles', k, rng.choice(['same', 'reversed', 'drop', 'remove']), rng.randrange(64)]
+        return ['m_setfilepaths', k, rng.choice(['all', 'drop']), rng.randrange(64)]
+
+    def copy_op(k):
+        if st['ntor'] < MAX_TORRENTS:
+            st['ntor'] += 1
+        return ['copy', k]
+
+    r0 = rng.random()
+    if meta and not single and r0 < 0.14:
+        # metainfo and disk disagree for a while (a run fails, getters are called), then the same entry is repaired:
+        # nothing of the bad state may survive
+        k, a = tor(), rng.randrange(64)
+        st['nm'] += 2
+        if rng.random() < 0.6:
+            bad = ['m_path', k, a, f'ghost{st["nm"]}', rng.choice(['inplace', 'assign']), False]
+            good = ['m_path', k, a, f'r{st["nm"] + 1}', rng.choice(['inplace', 'assign']), True]
+        else:
+            bad = ['m_len', k, a, rng.choice([-1, 1, 2]), False, 'wb']
+            good = ['m_len', k, a, rng.choice([1, 2, 3]), True, rng.choice(['replace', 'r+b', 'wb'])]
+        if rng.random() < 0.5:
+            ops.append(rng.choice([gen(k), getter(k)]))
+        ops.append(bad)
+        for _ in range(rng.randint(1, 2)):
+            ops.append(rng.choice([gen(k), gen(k), getter(k), ['m_get', k, 'filepaths-iter']]))
+        ops.append(good)
+        ops.append(gen(k))
+    elif meta and r0 < 0.5:
+        # the pattern that matters most on the metainfo side: the object has been looked at (a getter, an earlier
+        # run), its metainfo is edited, generate() runs on it
+        k = tor()
+        for _ in range(rng.randint(1, 2)):
+            ops.append(rng.choice([gen(k), getter(k), getter(k), ['verify', k, rng.randint(1, 3)]]))
+        for _ in range(rng.randint(1, 2)):
+            ops.append(edit(k))
+        if rng.random() < 0.3:
+            ops.append(getter(k))
+        ops.append(gen(k))
+    elif r0 < 0.45 or (meta and r0 < 0.65):
+        # the pattern that matters most on the disk side: something holds handles, a file changes, generate() runs
         if rng.random() < 0.6:
             ops.append(gen())
         ops.append(new_stream())
@@ -438,11 +707,26 @@ def _mk_history(rng, L, sizes, single=False, via_setter=False, nested=True):
         ops.append(gen())
     for _ in range(rng.randint(2, 9)):
         w = rng.random()
+        if meta and w < 0.42:
+            k = tor()
+            v = rng.random()
+            if v < 0.55:
+                ops.append(edit(k))
+            elif v < 0.75:
+                ops.append(getter(k))
+            elif v < 0.88:
+                ops.append(setter(k))
+            else:
+                ops.append(copy_op(k))
+            if rng.random() < 0.35:
+                ops.append(gen(k))
+            continue
+        w = rng.random()
         if w < 0.22:
             ops.append(gen())
         elif w < 0.42:
             ops.append(mutate())
-        elif w < 0.54 and nstreams < 4:
+        elif w < 0.54 and st['nstreams'] < 4:
             ops.append(new_stream())
         elif w < 0.80 and open_streams:
             ops.append(read_op(rng.choice(open_streams)))
@@ -450,10 +734,10 @@ def _mk_history(rng, L, sizes, single=False, via_setter=False, nested=True):
             s = rng.choice(open_streams)
             open_streams.remove(s)
             ops.append(['sclose', s])
-        elif w < 0.93 and any(has_pieces):
-            ops.append(['verify', rng.choice([k for k in (0, 1) if has_pieces[k]]), rng.randint(1, 3)])
-        elif via_setter and any(has_pieces):
-            ops.append(['reuse', rng.randrange(2)])
+        elif w < 0.93:
+            ops.append(['verify', tor(), rng.randint(1, 3)])
+        elif via_setter:
+            ops.append(['reuse', tor()])
         else:
             ops.append(gen())
     if ops[-1][0] != 'gen':
@@ -465,31 +749,32 @@ def _mk_history(rng, L, sizes, single=False, via_setter=False, nested=True):
 def gen_histories(ctx, scale=1.0):
     rng = ctx.rng
     cases = []
-    for _ in range(int(ctx.n(420, 12000) * scale)):
+    for _ in range(int(ctx.n(640, 18000) * scale)):
         w = rng.random()
+        meta = rng.random() < 0.6
         if w < 0.62:
             L = rng.choice([1, 2, 3, 4, 5, 8, 16, 64])
             sizes = [max(0, layouts.boundary_sizes(rng, L)) for _ in range(rng.randint(1, 5))]
             if sum(sizes) == 0:
                 sizes[0] = L + 1
-            cases.append(_mk_history(rng, L, sizes))
+            cases.append(_mk_history(rng, L, sizes, meta=meta))
         elif w < 0.74:
             # more files than the open-handle cap: handles are evicted and re-opened
             L = rng.choice([2, 3, 8])
             sizes = [rng.choice([1, 2, L, L + 1, 0]) for _ in range(rng.randint(12, 18))]
             if sum(sizes) == 0:
                 sizes[0] = L
-            cases.append(_mk_history(rng, L, sizes))
+            cases.append(_mk_history(rng, L, sizes, meta=meta))
         elif w < 0.88:
             # real piece length through the public setter, files of a few pieces (and larger than any read buffer)
             L = 16384
             sizes = [rng.choice([1, L - 1, L, L + 1, rng.randint(1, 3 * L), rng.randint(2 * L, 5 * L)])
                      for _ in range(rng.randint(1, 4))]
-            cases.append(_mk_history(rng, L, sizes, via_setter=True))
+            cases.append(_mk_history(rng, L, sizes, via_setter=True, meta=meta))
         else:
             L = rng.choice([2, 8, 16384])
             cases.append(_mk_history(rng, L, [max(1, layouts.boundary_sizes(rng, L))], single=True,
-                                     via_setter=(L == 16384), nested=False))
+                                     via_setter=(L == 16384), nested=False, meta=meta))
     return cases
 
 
@@ -508,23 +793,30 @@ def _run_hist_chunk(cases):
     return out
 
 
-def _bytes_from_ver_runs(c, runs):
+def _bytes_from_ver_runs(c, blobs, runs):
     out = []
     for f, o, n in runs:
         ver, j = f // VER_BASE, f % VER_BASE
-        out.append(_ver_bytes(c['cseed'], ver, j, c['sizes'][j])[o:o + n])
+        out.append(_ver_bytes(c['cseed'], ver, j, blobs[(j, ver)])[o:o + n])
     return b''.join(out)
 
 
 def _hist_nontrivial(c):
-    """a file changes before a generate() while another stream is open or after an earlier run"""
+    """a file changes before a generate() while another stream is open or after an earlier run, or the metainfo of
+    an object is edited between a look at it (getter / run) and a generate() on it"""
     seen_gen, open_s, changed = False, set(), False
+    looked, edited = set(), set()
     for op in c['ops']:
         k = op[0]
         if k == 'gen':
-            if changed:
+            if changed or op[1] in edited:
                 return True
             seen_gen = True
+            looked.add(op[1])
+        elif k in ('m_get', 'verify'):
+            looked.add(op[1])
+        elif k in META_KINDS and k != 'copy' and op[1] in looked:
+            edited.add(op[1])
         elif k == 'snew':
             open_s.add(op[1])
         elif k == 'sclose':
@@ -534,50 +826,92 @@ def _hist_nontrivial(c):
     return False
 
 
+def _expected_run(c, g):
+    """the demand for one generate(): from the raw metainfo and the disk at that moment"""
+    sn = g['sn']
+    L = sn['L']
+    parts = []
+    ok = isinstance(L, int) and L > 0
+    for key, ln in sn['ents']:
+        d = g['disk'].get(key)
+        if d is None or d['size'] != ln:
+            ok = False
+            break
+        parts.append(_ver_bytes(c['cseed'], d['ver'], d['id'], d['size']))
+    stream = b''.join(parts)
+    if not ok or len(stream) < 1:
+        return None
+    return [stream[i:i + L] for i in range(0, len(stream), L)]
+
+
 def evaluate_histories(ctx, drv, cases):
-    replies = drv.run([{'op': 'c01.history', 'L': c['L'], 'cap': MAX_OPEN, 'sizes': c['sizes'],
-                        'ops': _model_ops(c)} for c in cases])
     results = common.pmap(_run_hist_chunk, common.split(cases, common.NPROC * 4))
     flat = [x for chunk in results for x in chunk]
-    for (c, obs), r in zip(flat, replies):
+    for c, obs in flat:
         if 'harness_exc' in obs:
             raise RuntimeError(f'harness failure: {obs["harness_exc"]}')
+    replies = drv.run([{'op': 'c01.mhistory', 'cap': MAX_OPEN, 'sizes': c['sizes'], 'metas': obs['metas0'],
+                        'ops': obs['mops']} for c, obs in flat])
+    for (c, obs), r in zip(flat, replies):
         case = {k: c[k] for k in ('kind', 'L', 'sizes', 'paths', 'cseed', 'single', 'via_setter', 'ops')}
+        has_meta = any(op[0] in META_KINDS or op[0] == 'm_get' for op in c['ops'])
         ctx.case(key=json.dumps([c['L'], c['sizes'], c['ops']]), nontrivial=_hist_nontrivial(c),
                  kind='history/' + ('single' if c['single'] else 'real-16k' if c['via_setter'] else
-                                    'many-handles' if len(c['sizes']) > MAX_OPEN + 1 else 'small'))
+                                    'many-handles' if len(c['sizes']) > MAX_OPEN + 1 else 'small') +
+                      ('+metainfo' if has_meta else ''))
         ctx.dist['history-ops'] += len(c['ops'])
+        ctx.dist['history-metainfo-changes-observed'] += sum(1 for m in obs['mops'] if m[0] in ('meta', 'newtor'))
         ctx.dist['history-noise-exceptions(other operations, ignored)'] += obs['noise']
         ctx.sample({'case': case, 'model': [m['kind'] for m in r['model']]}, limit=3)
         if not r['hyp']:
-            ctx.machinery_error('history generator left the scope of C01_generate_history', case)
+            ctx.machinery_error('history generator left the scope of C01_generate_reads_current_metainfo (piece length 0)',
+                                case)
             continue
         if not r['specEq']:
-            ctx.machinery_error('runHist != specHist although C01_generate_history is proved', case)
+            ctx.machinery_error('runHistM != specHistM although C01_generate_reads_current_metainfo is proved', case)
             continue
         if len(r['model']) != len(obs['gens']):
             ctx.machinery_error('driver and harness disagree on the number of generate() calls', case)
             continue
+        blobs = {tuple(k): v for k, v in obs['blobs']}
         for gi, (m, g) in enumerate(zip(r['model'], obs['gens'])):
             ctx.dist['history-generate-calls'] += 1
-            cur = [_ver_bytes(c['cseed'], v, j, c['sizes'][j]) for j, v in enumerate(g['vers'])]
-            stream = b''.join(cur)
-            want = [stream[i:i + c['L']] for i in range(0, len(stream), c['L'])]
+            want = _expected_run(c, g)
+            # model (= specification, proved) against the demand computed here from the raw metainfo and the disk
+            if want is None:
+                if m['kind'] != 'failed':
+                    ctx.machinery_error('model run succeeds where metainfo and disk disagree', case)
+                    break
+            else:
+                mp = [_bytes_from_ver_runs(c, blobs, runs) for runs in m.get('pieces', [])]
+                if m['kind'] != 'stored' or mp != want:
+                    ctx.machinery_error('model pieces differ from the chunks of the listed files in metainfo order', case)
+                    break
+            vers = {'/'.join(k): d['ver'] for k, d in g['disk'].items()}
+            if want is None:
+                ctx.dist['history-generate: metainfo and disk disagree -> must fail'] += 1
+                ok = g.get('ret') is not True and g['pieces'] == g['before']
+                if not ok:
+                    ctx.violation(f'generate() #{gi + 1} of the history: the metainfo lists files that are missing or '
+                                  'have another size, but the run reported success or changed the stored pieces', case,
+                                  {'ret': 'False or an exception', 'pieces': 'unchanged',
+                                   'metainfo_files': g['sn']['ents'], 'disk': g['disk']},
+                                  {'ret': g.get('ret'), 'exc': g.get('exc'),
+                                   'pieces_changed': g['pieces'] != g['before']}, MATCHERS)
+                    break
+                continue
             exp = b''.join(common.sha1(w) for w in want)
-            # model (= specification, proved) in bytes
-            mp = [_bytes_from_ver_runs(c, runs) for runs in m.get('pieces', [])]
-            if m['kind'] != 'stored' or mp != want:
-                ctx.machinery_error('model pieces differ from the chunks of the current bytes', case)
-                break
-            ok = ('exc' not in g and g['ret'] is True and g['pieces'] == exp and g['npieces'] == r['count']
+            ok = ('exc' not in g and g.get('ret') is True and g['pieces'] == exp and g['npieces'] == len(want)
                   and g['hashes'] == [common.sha1(w) for w in want])
             if not ok:
                 wrong = None
                 if g.get('pieces') and len(g['pieces']) == len(exp):
                     wrong = [i for i in range(len(want)) if g['pieces'][20 * i:20 * i + 20] != exp[20 * i:20 * i + 20]]
-                ctx.violation(f'generate() #{gi + 1} of the history did not store the sha1 of the chunks of the bytes '
-                              'the files hold when it ran', case,
-                              {'ret': True, 'pieces': exp.hex()[:120], 'count': r['count'], 'file_versions': g['vers']},
+                ctx.violation(f'generate() #{gi + 1} of the history did not store the sha1 of the chunks of the files '
+                              'the metainfo lists when it ran (in that order, at that piece length, with the bytes they '
+                              'hold at that moment)', case,
+                              {'ret': True, 'pieces': exp.hex()[:120], 'count': len(want), 'piece_length': g['sn']['L'],
+                               'metainfo_files': ['/'.join(k) for k, _ in g['sn']['ents']], 'file_versions': vers},
                               {'ret': g.get('ret'), 'exc': g.get('exc'), 'pieces': (g.get('pieces') or b'').hex()[:120],
                                'wrong_piece_indexes': wrong}, MATCHERS)
                 break
@@ -766,8 +1100,11 @@ def run(ctx, drv):
         'Torrent.pieces uses float division: exact for sizes < 2^52 (generators stay far below)',
         'the model covers content whose files are all present with the recorded size (other branch: C10)',
         'thread schedules of the fault-free pipeline are covered by C03; here the collector sort is the theorem C01_collect_perm',
-        'histories: files do not change while a generate() is in progress; replacements keep the recorded size; a handle '
-        'obtained from the cache is read from offset 0 to EOF (fh.seek(0) is unconditional; offsets left by earlier reads: C19)',
+        'histories: files do not change while a generate() is in progress; a handle obtained from the cache is read from '
+        'offset 0 to EOF (fh.seek(0) is unconditional; offsets left by earlier reads: C19); metainfo entries keep pairwise '
+        'distinct paths and positive piece lengths; the content path is attached to Torrent._path by the harness (as for '
+        'every C01 case) and re-attached after the files/filepaths setters and copy(); the demand is computed from the '
+        'raw mapping Torrent.metainfo[\'info\'] (no getter) and the harness\' own record of the disk',
         'schedules: same granularity and shim as C03/C04 (one label per queue/event/thread operation); a hasher fault is an '
         'exception raised by sha1() inside HasherPool._handle_piece (module global torf._generate.sha1 replaced from the harness)',
     ]
